@@ -200,6 +200,30 @@ impl<const K: usize> Read for ShortRead<'_, K> {
     }
 }
 
+/// Result -> Option without running the error's drop glue (dropping an io::Error / crate Error makes
+/// CBMC explore the drop of every `dyn Error` implementor; measured: out of memory on a 5-line codec).
+pub fn okf<T, E>(r: Result<T, E>) -> Option<T> {
+    match r {
+        Ok(v) => Some(v),
+        Err(e) => {
+            core::mem::forget(e);
+            None
+        }
+    }
+}
+pub fn is_okf<T, E>(r: Result<T, E>) -> bool {
+    match r {
+        Ok(v) => {
+            core::mem::forget(v);
+            true
+        }
+        Err(e) => {
+            core::mem::forget(e);
+            false
+        }
+    }
+}
+
 // compare two slices without a memcmp intrinsic (bounded by N)
 pub fn same<const N: usize>(a: &[u8], b: &[u8]) -> bool {
     if a.len() != b.len() {
